@@ -598,7 +598,7 @@ Print Assumptions C04_provided_wallclock.
         "nominal wall clock, whole-minute offset, leap fraction only on second 59" (the domain in which the text
         parses back); this theorem is built from the same writer lemmas of C09 (time_debug_text, time_shape,
         year_shape, pad_dec_low, off_shape; the proof patterns of date_debug_text / fixed_debug_text without the
-        representation / whole-minute hypotheses) and C04's reading of the wall clock. *)
+        representation / whole-minute premises) and C04's reading of the wall clock. *)
 Theorem C04_show_wallclock : forall a utc, dtz_ok a ->
   let n := wall a / 86400 in let sod := wall a mod 86400 in let f := frac (dz_utc a) in
   let y := fst (yo_of_dn n) in let o := snd (yo_of_dn n) in
@@ -690,7 +690,7 @@ Example C04_show_inhabited :
   Show.to_text (Show.dtz_display false [] z_max_p2h) = Val (B"+262143-01-01 01:59:59.999999999 +02:00").
 Proof. exact C04Holds.show_inhabited. Qed.
 Print Assumptions C04_show_inhabited.
-(* the hypotheses are satisfiable, also by values whose wall clock is in the headroom *)
+(* the premises are satisfiable, also by values whose wall clock is in the headroom *)
 Example C04_ops_inhabited :
   off_ok 3600 /\ Judge.C04.off_ok (-86399) = true /\ in_i32 86400 = true /\
   dtz_ok z_max_p2h /\ dtz_ok z_min_m2h /\ ndt_ok NDT_MAX /\ ndt_ok NDT_MIN /\
